@@ -2,3 +2,4 @@ import SpatialId.Basic
 import SpatialId.Model.Notation
 import SpatialId.Model.Zoom
 import SpatialId.Model.Shift
+import SpatialId.Model.Overlap
